@@ -41,15 +41,14 @@ Stored(req, obs) ==
 Holds14(v) ==
   LET req == v.req  obs == v.obs IN
   /\ ("history" \in DOMAIN req => req.history \in Histories)
-  /\
-  IF MustReject(req) \/ (MayReject(req) /\ obs.rejected)
-  THEN obs.rejected /\ obs.nadd = 0
-  ELSE /\ ~obs.rejected /\ obs.nadd = 1
-       /\ obs.key = KeySpec(req)
-       /\ obs.ports = [i \in 1..Len(req.ports) |-> <<req.ports[i].pub, req.ports[i].loc>>]
-       /\ SeqToSet(obs.flags) = Flags(req) /\ Len(obs.flags) = Cardinality(Flags(req))
-       /\ obs.cauth = [i \in 1..Len(req.clients) |-> <<req.clients[i].name, req.clients[i].token>>]
-       /\ obs.hostname = obs.sid \o ".onion"
-       /\ obs.stored = Stored(req, obs)
-       /\ obs.del = obs.sid
+  /\ IF MustReject(req) \/ (MayReject(req) /\ obs.rejected)
+     THEN obs.rejected /\ obs.nadd = 0
+     ELSE /\ ~obs.rejected /\ obs.nadd = 1
+          /\ obs.key = KeySpec(req)
+          /\ obs.ports = [i \in 1..Len(req.ports) |-> <<req.ports[i].pub, req.ports[i].loc>>]
+          /\ SeqToSet(obs.flags) = Flags(req) /\ Len(obs.flags) = Cardinality(Flags(req))
+          /\ obs.cauth = [i \in 1..Len(req.clients) |-> <<req.clients[i].name, req.clients[i].token>>]
+          /\ obs.hostname = obs.sid \o ".onion"
+          /\ obs.stored = Stored(req, obs)
+          /\ obs.del = obs.sid
 =============================================================================
